@@ -25,6 +25,13 @@ void wc::run_poly_case(bool nnc) {
 static void run_case(uint64_t) {
   const std::string& pf = hx::opt().profile;
   int k = rnd(0, 99);
+  const std::string dom = hx::opt().gets("dom", "");   // --kv dom=<x> pins one domain (development aid)
+  if (!dom.empty()) {
+    if (dom == "cpoly") run_poly_case(false); else if (dom == "nncpoly") run_poly_case(true); else if (dom == "bds") run_bds_case(); else if (dom == "oct") run_oct_case();
+    else if (dom == "rbox") run_box_case(false); else if (dom == "dbox") run_box_case(true); else if (dom == "grid") run_grid_case();
+    else if (dom == "ppsc") run_pps_case(false); else if (dom == "ppsn") run_pps_case(true); else if (dom == "ppsg") run_ppsgrid_case();
+    return;
+  }
   if (pf == "poly") { run_poly_case(k < 45); return; }
   if (pf == "shape") { if (k < 50) run_bds_case(); else run_oct_case(); return; }
   if (pf == "box") { run_box_case(k < 50); return; }
